@@ -18,6 +18,7 @@ fn main() {
     };
     let mut replay: Option<PathBuf> = None;
     let mut worker = None;
+    let mut child: Option<String> = None;
     let mut i = 1;
     while i < args.len() {
         match args[i].as_str() {
@@ -32,6 +33,10 @@ fn main() {
             "--replay" => {
                 i += 1;
                 replay = Some(PathBuf::from(args.get(i).cloned().unwrap_or_else(|| usage())));
+            }
+            "--child" => {
+                i += 1;
+                child = Some(args.get(i).cloned().unwrap_or_else(|| usage()));
             }
             "--worker" => {
                 i += 1;
@@ -59,6 +64,10 @@ fn main() {
         verif_dir,
         worker,
     };
+    if let Some(sub) = child {
+        std::env::set_var("SV_FOREIGN_PANIC_QUIET", "1");
+        std::process::exit(sv::props::child(&env, &sub));
+    }
     let code = match replay {
         Some(p) => sv::props::replay_file(&env, &p),
         None => sv::props::run(&env),
